@@ -3,9 +3,9 @@ from engine.symex import s_eq
 from harness import loop_common as lcm
 from harness.loop_specs import C05, LoopSpec, mkjob
 
-MARKED = {"R1": [("c1", "x", 0), ("c2", "y", "dflt"), ("c1", "_hidden", -1)],
+MARKED = {"R1": [("c1", "x", 0), ("c2", "y", "dflt"), ("c1", "_hidden", -1), ("c2", "target", lcm.NO_TARGET)],
           "R2": [("c1", "x", 0), ("c2", "x", 0), ("c2", "y", "dflt"), ("c1", "z", 1.5), ("c2", "z", 2.5)],
-          "R3": [("c1", "x", 0), ("c2", "y", "dflt")],
+          "R3": [("c1", "x", 0), ("c2", "y", "dflt"), ("c2", "target", lcm.NO_TARGET)],
           "R5": [("c1", "x", 0), ("c2", "x", 0), ("c1", "y", "dflt"), ("c2", "y", "dflt")]}
 PLAIN = [("c1", "plain", "init"), ("c2", "plain", "init")]
 WRITERS = ["robot.teleopPeriodic", "auto.on_iteration", "c1.execute", "c2.execute"]
@@ -84,7 +84,8 @@ def clauses(c, H, attrs):
                         lab = "C10.reset value-seen" if j < nmarked else "C10.untouched plain-attribute-keeps-value"
                         if cur[j] is not d and j < nmarked:
                             c.reach("read-sees-same-iteration-write")
-                        c.prove(lab, s_eq(e[2][j], cur[j]), info=dict(site=e[1], attr=f"{cn}.{a}", got=e[2][j], expected=cur[j], mode=sg.mode))
+                        same = (e[2][j] is cur[j]) if (e[2][j] is lcm.NO_TARGET or cur[j] is lcm.NO_TARGET or isinstance(e[2][j], lcm._NoTarget)) else s_eq(e[2][j], cur[j])
+                        c.prove(lab, same, info=dict(site=e[1], attr=f"{cn}.{a}", got=e[2][j], expected=cur[j], mode=sg.mode))
                 elif e[0] == "write":
                     c.reach("write")
                     cur = [e[2]] * len(attrs)
